@@ -529,9 +529,13 @@ pub mod frames {
 
     use super::*;
 
+    // `owner`: the host the association belongs to (the peer of the control connection). Until
+    // the relay has locked on to a client address, datagrams from any other host are dropped
+    // (RFC 1928 section 7), so that nobody else can take over, or use, someone's association.
     pub async fn setup_udp_session(
         local: SocketAddr,
         remote: Option<SocketAddr>,
+        owner: Option<std::net::IpAddr>,
     ) -> IoResult<(SocketAddr, FrameIO)> {
         let socket = UdpSocket::bind(local).await?;
         let bind_addr = socket.local_addr()?;
@@ -542,7 +546,7 @@ pub mod frames {
         Ok((
             bind_addr,
             (
-                SocksFrameReader::new(remote, socket.clone()),
+                SocksFrameReader::new(remote, owner, socket.clone()),
                 SocksFrameWriter::new(socket),
             ),
         ))
@@ -551,25 +555,55 @@ pub mod frames {
     struct SocksFrameReader {
         socket: Arc<UdpSocket>,
         remote: Option<SocketAddr>,
+        owner: Option<std::net::IpAddr>,
     }
 
     impl SocksFrameReader {
-        fn new(remote: Option<SocketAddr>, socket: Arc<UdpSocket>) -> Box<Self> {
-            Self { remote, socket }.into()
+        fn new(
+            remote: Option<SocketAddr>,
+            owner: Option<std::net::IpAddr>,
+            socket: Arc<UdpSocket>,
+        ) -> Box<Self> {
+            Self {
+                remote,
+                owner,
+                socket,
+            }
+            .into()
         }
+    }
+
+    // ::ffff:a.b.c.d and a.b.c.d are the same host (a dual-stack socket reports the former)
+    fn same_host(a: std::net::IpAddr, b: std::net::IpAddr) -> bool {
+        fn canonical(ip: std::net::IpAddr) -> std::net::IpAddr {
+            match ip {
+                std::net::IpAddr::V6(v6) => v6
+                    .to_ipv4_mapped()
+                    .map(std::net::IpAddr::V4)
+                    .unwrap_or(ip),
+                v4 => v4,
+            }
+        }
+        canonical(a) == canonical(b)
     }
 
     #[async_trait]
     impl FrameReader for SocksFrameReader {
         async fn read(&mut self) -> IoResult<Option<Frame>> {
-            let mut buf = Frame::new();
-            let (_sz, addr) = buf.recv_from(&self.socket).await?;
-            if self.remote.is_none() {
-                self.socket.connect(addr).await?;
-                self.remote = Some(addr);
+            loop {
+                let mut buf = Frame::new();
+                let (_sz, addr) = buf.recv_from(&self.socket).await?;
+                if self.remote.is_none() {
+                    if matches!(self.owner, Some(owner) if !same_host(owner, addr.ip())) {
+                        tracing::debug!("udp relay: datagram from {} dropped, not the owner", addr);
+                        continue;
+                    }
+                    self.socket.connect(addr).await?;
+                    self.remote = Some(addr);
+                }
+                let buf = decode_socks_frame(buf)?;
+                return Ok(Some(buf));
             }
-            let buf = decode_socks_frame(buf)?;
-            Ok(Some(buf))
         }
     }
 
